@@ -431,6 +431,48 @@ class FnParts:
         return out
 
 
+def fn_closures(fp):
+    """Closures `|params| body` in the body of a fn, in source order, as (last sig-pos of the parameter list,
+    first sig-pos of the body, last sig-pos of the body, body_is_block).  A `|` opens a closure when it stands
+    where an expression starts (after `(` `,` `=` `{` `;` `move` `return`); or-patterns and binary `|` follow
+    an operand and are not matched.  Used by the `//@closure k` directive only."""
+    s, sig = fp.item.src, fp.item.src.sig
+    out = []
+    r = fp.body_open + 1
+    while r < fp.body_close:
+        if s.tt(sig[r]) == "|" and s.toks[sig[r]][0] == "p" and (
+                s.tt(sig[r - 1]) in ("(", ",", "=", "{", ";", "move", "return") and s.tt(sig[r - 2]) + s.tt(sig[r - 1]) not in ("==", "!=", "<=", ">=")):
+            if s.tt(sig[r + 1]) == "|" and s.toks[sig[r]][2] == s.toks[sig[r + 1]][1]:
+                q = r + 1                      # `||`: no parameters
+            else:
+                q = r + 1
+                while q < fp.body_close and s.tt(sig[q]) != "|":
+                    if s.tt(sig[q]) in OPEN:
+                        q = sig.index(s.match[sig[q]], q)
+                    q += 1
+            lo = q + 1
+            if s.tt(sig[lo]) == "-" and s.tt(sig[lo + 1]) == ">":
+                r = lo                          # already typed `-> T { .. }`: not annotatable, skip
+                continue
+            if s.tt(sig[lo]) == "{":
+                hi = sig.index(s.match[sig[lo]], lo)
+                out.append((q, lo, hi, True))
+            else:
+                hi = lo
+                while hi < fp.body_close:
+                    w = s.tt(sig[hi])
+                    if w in OPEN:
+                        hi = sig.index(s.match[sig[hi]], hi)
+                    elif w in (",", ";") or w in CLOSE:
+                        break
+                    hi += 1
+                out.append((q, lo, hi - 1, False))
+            r = lo                              # nested closures inside the body are found too
+            continue
+        r += 1
+    return out
+
+
 def sha(text):
     return hashlib.sha256(text.encode()).hexdigest()
 
@@ -518,6 +560,11 @@ def emit_item(item, opts, drops):
             # keep up to (not including) body, add clauses and ';'
             for k in range(sig[fp.body_open], sig[fp.body_close] + 1):
                 skip.add(k)
+            # `mut x: T` binding patterns are not allowed in a bodiless (trait) declaration: drop the `mut`
+            # of by-value parameters there (the impl method below keeps the verbatim signature)
+            for p in range(fp.params_open + 1, fp.params_close):
+                if s.tt(sig[p]) == "mut" and s.tt(sig[p - 1]) in ("(", ",") and s.tt(sig[p + 1]) != "self":
+                    skip.add(sig[p])
             # appended AFTER what is already attached to that token (the ')' closing a named return)
             ins_after[sig[fp.body_open - 1]] = ins_after.get(sig[fp.body_open - 1], "") + "\n" + (opts.get("clauses") or "") + ";"
         else:
@@ -530,6 +577,19 @@ def emit_item(item, opts, drops):
                 if k >= len(loops):
                     raise ExtractError(f"lost anchor: loop #{k} of {item.name} in {s.path}")
                 add_before(sig[loops[k][1]], "\n" + text + "\n")
+            if opts.get("closures"):
+                # //@closure k <ret>: <Type>  + clause text: the k-th closure `|p| body` becomes
+                # `|p| -> (<ret>: <Type>) <clauses> { body }` (Verus' only form for a closure with a contract; the
+                # parameter list and the body expression stay verbatim, the clauses are ghost)
+                cls = fn_closures(fp)
+                for k, (rdecl, text) in opts["closures"].items():
+                    if k >= len(cls):
+                        raise ExtractError(f"lost anchor: closure #{k} of {item.name} in {s.path}")
+                    pend, lo, hi, is_block = cls[k]
+                    add_after(sig[pend], f" -> ({rdecl})\n" + text.rstrip("\n") + "\n" + ("" if is_block else "{ "))
+                    if not is_block:
+                        add_after(sig[hi], " }")
+                    drops.append(f"closure #{k} given a named return type and a ghost contract (body verbatim)")
             bf = ""
             if opts.get("probe"):
                 bf += " proof!{ assert(false); } " if opts.get("plain") else " proof { assert(false); } "
@@ -559,11 +619,11 @@ def emit_item(item, opts, drops):
                     le = s.text.find("\n", pos)
                     tk = max(k for k in range(item.first, item.last + 1) if s.toks[k][1] < le and s.toks[k][0] != "ws")
                     add_after(tk, "\n" + text + "\n")
-    elif item.kind == "const" and (opts.get("clauses") or opts.get("body_first")):
+    elif item.kind in ("const", "static") and (opts.get("clauses") or opts.get("body_first")):
         # `const N: T = <expr>;` with a contract  ->  `exec const N: T <clauses> { <ghost first> <expr> }`
         # (Verus' only form for a const with an `ensures`; the initializer expression stays verbatim)
         eqp = next((p for p in range(a, b + 1) if s.tt(sig[p]) == "="), None)
-        kwp = next((p for p in range(a, b + 1) if s.tt(sig[p]) == "const" and s.toks[sig[p]][0] == "id"), None)
+        kwp = next((p for p in range(a, b + 1) if s.tt(sig[p]) == item.kind and s.toks[sig[p]][0] == "id"), None)
         if eqp is not None and kwp is not None and s.tt(sig[b]) == ";":
             add_before(sig[kwp], "exec ")
             replace[sig[eqp]] = "\n" + (opts.get("clauses") or "") + "\n{\n" + ((opts["body_first"] + "\n") if opts.get("body_first") else "")
